@@ -16,10 +16,11 @@ ASSUMPTIONS = [
     "data containing CR is recovered newline-normalised (CRLF / CR become LF): inherent to the format, stated in c11_block_parses_back",
     "the channel of safina::sync is assumed linearizable; lost wake-ups when several senders drop concurrently are outside the model "
     "(the thorough tier's multi-threaded stress over loop-back observes order and counts, it proves nothing)",
-    "OPEN CANDIDATE (not suppressed, not failing the oracle's lossless clauses): an event whose encoding exceeds the 65528-byte read "
-    "buffer makes Event::write_to fail with WriteZero; copy_chunked_async returns ReaderErr, the stream ends without terminating "
-    "chunk and the event plus everything queued behind it is never delivered although the senders reported connected "
-    "(theorem c11_oversize_event_aborts_stream; case 'sse S0,m,R65522:61 S0,m,x62 W')",
+    "known finding D17 (class kf_c11_oversize_event): an event whose encoding exceeds the 65528-byte read buffer makes "
+    "Event::write_to fail with WriteZero; copy_chunked_async returns ReaderErr, the stream ends without terminating chunk and the "
+    "event plus everything queued behind it is never delivered although the senders reported connected; the lossless clauses are "
+    "proved for every history outside the class (c11_lossless_modulo_oversize) and refuted inside it "
+    "(c11_oversize_event_lost_refuted; witness 'sse S0,m,R65522:61 S0,m,x62 W' in the corpus)",
     "one `W` step allows exactly one read of the EventReceiver (a harness-side wrapper returns Pending afterwards), i.e. the writer "
     "task is simply not scheduled further; the real server's writer interleaves with senders at the same granularity",
 ]
@@ -184,7 +185,7 @@ def neighbours(case, rng):
 def extra_evidence(results):
     hits = {"queue 49": 0, "queue 50": 0, "queue 51": 0, "send after disconnect": 0, "clone then drop original": 0,
             "data empty": 0, "data with lone CR": 0, "data with CRLF": 0, "data ending in LF": 0, "leading space/colon": 0,
-            "non-ASCII": 0, "65528 encoded bytes": 0, "65529 encoded bytes (open candidate)": 0, "client gone": 0}
+            "non-ASCII": 0, "65528 encoded bytes": 0, "65529 encoded bytes (D17)": 0, "client gone": 0}
     for (prof, c, i, m, v) in results:
         t = c.split()
         if t[0] != "sse":
@@ -225,6 +226,5 @@ def extra_evidence(results):
         if "R65521:61" in c or "R33514:62" in c or "R65512:61" in c:
             hits["65528 encoded bytes"] += 1
         if "R65522:61" in c or "R33515:62" in c or "R65513:61" in c:
-            hits["65529 encoded bytes (open candidate)"] += 1
-    return dict(boundary_hits=hits, known_finding="D9 (kf_c11_missing_blank_line)",
-                open_candidate="event larger than the 65528-byte read buffer: stream ends without terminator, accepted events lost")
+            hits["65529 encoded bytes (D17)"] += 1
+    return dict(boundary_hits=hits, known_findings=["D9 (kf_c11_missing_blank_line)", "D17 (kf_c11_oversize_event)"])
